@@ -63,7 +63,7 @@ CHECKS = {
    text="Seeded deterministic simulation of the real worker under mixes of session outcomes and connection storms with max_connections 2..64: the hooks count the client sockets sozu is serving at every step (never above max_connections); after all peers left and virtual time passed every timeout, no client/backend socket remains open, QueryMetrics gauges equal their pre-traffic baseline and a fresh probe is served.",
    technique="deterministic simulation with fault injection; step-wise admission invariant from the syscall seam; baseline-vs-quiescence footprint comparison"),
  "C02": dict(engine="netsim", design="5/C02", category="exploration",
-   text="Seeded deterministic simulation of the real worker with one injected cause per plan on a victim request (no route / denied / no backend / refused / black-holed connect / close on accept / backend close or stall at a byte offset / garbage / slow answer / client stall / keep-alive close) next to clean traffic; enumeration of close/stall at every response offset for small responses; the victim is judged against the cause->allowed-outcome table (exactly one answer, right status, explicit abort never a complete-looking short body, answer within the configured timeouts in virtual time), the rest by the C01 oracle.",
+   text="Seeded deterministic simulation of the real worker with one injected cause per plan on a victim request (no route / denied / no backend / refused / black-holed connect / close on accept / backend close or stall at a byte offset / garbage / slow answer / client stall / keep-alive close) next to clean traffic; enumeration of close/stall at every response offset for small responses; a quarter of the plans put the victim on one of 2-4 concurrent streams of an HTTP/2 client (real TLS) with a slow reader, where sibling streams must stay byte-exact unless explicitly refused as retryable; the victim is judged against the cause->allowed-outcome table (exactly one answer, right status, explicit abort never a complete-looking short body, answer within the configured timeouts in virtual time), the rest by the C01 oracle.",
    technique="deterministic simulation with fault injection at byte offsets and lifecycle points; history oracle per request; virtual-time liveness bound"),
  "C01": dict(engine="netsim", design="5/C01", category="exploration",
    text="Seeded deterministic simulation of the real worker (Server::run) with scripted H1 clients/backends: every body byte is position-keyed and verified at both ends under random fragmentation, pacing, socket-buffer sizes, epoll truncation/permutation, preemption and injected short writes/EAGAIN; liveness via virtual-time bound. Sampling, not enumeration.",
